@@ -2,6 +2,8 @@
 # Build the symbolic engine offline from the module cache.
 set -e
 export GOFLAGS=-mod=mod GOPROXY=off GOSUMDB=off GOTOOLCHAIN=local
-cd /verif/engine
-mkdir -p /verif/bin
-go build -o /verif/bin/gosym .
+D=$(cd "$(dirname "$0")" && pwd)
+cd "$D/engine"
+mkdir -p "$D/bin"
+go build -o "$D/bin/gosym.tmp" .
+mv "$D/bin/gosym.tmp" "$D/bin/gosym"
